@@ -21,6 +21,14 @@ class TwinGen(Gen):
             return None
         rs, ra = s['res'][0], a['res'][0]
         self.do({'op': 'twincheck', 'a': [ra], 'b': [rs]})
+        if 'src' in self.oplist[-2] and self.m.kinds[self.oplist[-2]['src']] == 'S' and self.rng.random() < 0.6:
+            # the source keeps living: change it in place afterwards - the new objects must not follow
+            src = self.oplist[-2]['src']
+            f2, S2 = self.settings()
+            self.do({'op': 'apply', 'r': src, 'sets': f2, 'S': S2, 'start': 0, 'end': None, 'top': True})
+            if self.rng.random() < 0.5:
+                self.do({'op': 'case', 'r': src, 'm': 'upper', 'inplace': True})
+            self.do({'op': 'twincheck', 'a': [ra], 'b': [rs]})
         return rs, ra
 
     def both(self, rs, ra, o, inplace_only=False, has_inplace=False):
